@@ -37,3 +37,19 @@ def ghost_combination_wrong_sat(script):
 
 def boolarg_combination_wrong_sat(script):
     return has_boolarg_uf(script) and arith_combined(script)
+
+
+def recheck_of_unsat_state(case, idx):
+    """The check-sat before command idx decides a set that contains a set already answered unsat by an earlier
+    check-sat (the unsat frame is still on the stack, so the solver answers without solving again)."""
+    from .. import osmt as _o
+    cps = [(i, [tuple(x) for x in act]) for i, c, act in gen.stack_walk(case) if c[0] == "check-sat"]
+    cur = [x for x in cps if x[0] < idx]
+    if len(cur) < 2:
+        return False
+    j, act_j = cur[-1]
+    r = _o.run_marked(case, "fast", 10)
+    for k, act_k in cur[:-1]:
+        if r.answer(k) == "unsat" and all(x in act_j for x in act_k):
+            return True
+    return False
